@@ -20,6 +20,7 @@ mod tap;
 mod validate;
 mod vgen;
 mod vxlate;
+mod vctor;
 mod text;
 mod translate;
 mod tree;
